@@ -85,6 +85,12 @@ def reply_patterns(ctx_ids, ts_list, tier, rng):
         # the acceptor answers only some of the contexts / in another order
         sub = rng.sample(ctx_ids, max(1, len(ctx_ids) // 2))
         yield 'ac', [(i, 0, ts_list[-1]) for i in sub]
+    # the peer's reply also names (as accepted) a context that was never proposed: it is not among the proposed ones
+    stray = next((i for i in range(255, 0, -2) if i not in ctx_ids), None)
+    if stray is not None:
+        some = [(i, 0, ts_list[0]) for i in ctx_ids[:3]]
+        yield 'ac', some[:1] + [(stray, 0, ts_list[-1])] + some[1:]
+        yield 'ac', [(stray, 0, ts_list[0])] + [(i, 3, '') for i in ctx_ids[:2]]
     yield 'rj', (1, 1, 3)
 
 
